@@ -78,7 +78,7 @@ def check(case, res):
     for x in sorted(failed):
         t = ids[x]
         o = case["outcomes"][str(x)]
-        if "launch" in o:
+        if "launch" in o or "conflict" in o:
             continue
         msg = rep_failed.get(t)
         if msg is None:
